@@ -192,3 +192,9 @@ if _parent is not None and hasattr(_parent, 'ASSUMPTIONS'):
     for _a in ASSUMPTIONS_KEXINIT:
         if _a not in _parent.ASSUMPTIONS:
             _parent.ASSUMPTIONS.append(_a)
+
+
+# bound the counter-model search when a change breaks many paths of one function at once
+for _sp in [v_ for v_ in list(globals().values()) if isinstance(v_, Spec) and v_.prop == 'C11']:
+    if getattr(_sp, 'confirm_limit', None) is None:
+        _sp.confirm_limit = 2
